@@ -3751,6 +3751,103 @@ Print Assumptions loopir_CORRELOGRAMPSD_tie.
 THEOREMS['CORRELOGRAMPSD'] = dict(proof=CGRAM_PROOF, theorems=CGRAM_THEOREMS, block=CGRAM_BLOCK)
 
 
+# ---------------------------------------------------------------- rlevinson: run = model for ALL inputs (T9); extends the T5 entry
+# The proof file of the entry becomes Proofs/LoopIRRlevinsonAll.v (it imports Proofs/LoopIRRlevinson.v, keeps the same verbatim program text between
+# its own BEGIN/END GENERATED rlevinson markers, and proves the two copies equal by reflexivity): building its cone builds both files.
+RLEVALL_PROOF = 'Proofs/LoopIRRlevinsonAll.v'
+RLEVALL_THEOREMS = ['loopir_rlevinson_model', 'loopir_rlevinson_tie']
+RLEVALL_BLOCK = """
+(* T9: the same regenerated program is also, term for term, the decomposed program Proofs/LoopIRRlevinsonAll.v is about: run = Model.LinPred.rlevinson for
+   ALL inputs (every length, both dtype tags, every efinal, every equality test feq = the model's Eqb instance): the step-down sweep through the embedded
+   levdown, the column stores into U, the R recursion. *)
+Require Import Spectrum.Proofs.LoopIRRlevinsonAll.
+Lemma prog_rlevinson_is_ref_all : prog_rlevinson = prog_rlevinson_ref.
+Proof. reflexivity. Qed.
+Theorem loopir_rlevinson_model :
+  forall (F : Type) (OF : Ops F) (L : Laws OF) (feq : F -> F -> bool) (stop : Z -> F -> F -> bool) (t : bool) (a : list F) (ef : F),
+  run feq stop prog_rlevinson [Some (VArr t a); Some (VF ef)] =
+  match a with
+  | [] => OErr IndexError
+  | a0 :: _ =>
+      if negb (feq a0 1%F) then OErr AssertionError
+      else match @rlevinson F OF feq a ef with
+           | None => OErr ValueError
+           | Some (R, stages, kr, es) =>
+               ORet [VArr false R; VMat t (length a) (Umatrix (length a) stages); VArr t kr; VArr true es]
+           end
+  end.
+Proof. intros. rewrite prog_rlevinson_is_ref_all. exact (rlevinson_ir_run feq stop t a ef). Qed.
+Theorem loopir_rlevinson_tie :
+  forall (F : Type) (OF : Ops F) (L : Laws OF) (feq : F -> F -> bool), (forall a, feq a a = true) ->
+  forall (t : bool) (a : list F) (ef : F), tie_rlevinson feq prog_rlevinson t a ef = true.
+Proof. intros. rewrite prog_rlevinson_is_ref_all. apply rlevinson_ir_tie; assumption. Qed.
+Print Assumptions loopir_rlevinson_model.
+Print Assumptions loopir_rlevinson_tie.
+"""
+THEOREMS['rlevinson'] = dict(proof=RLEVALL_PROOF, theorems=RLEV_THEOREMS + RLEVALL_THEOREMS, block=RLEV_BLOCK + RLEVALL_BLOCK)
+
+
+# ---------------------------------------------------------------- poly2ac, poly2rc, rc2ac: rlevinson_ir_run / rc2poly_ir_run through the call semantics (T9)
+POLY2_PROOF = 'Proofs/LoopIRPoly2.v'
+
+
+def poly2_block(nm, ret):
+    return """
+(* The program of %(nm)s regenerated on this run - with rlevinson (and its callee levdown) embedded - is, term for term, the one Proofs/LoopIRPoly2.v is about. *)
+Require Import Spectrum.Theory.Ops Spectrum.Theory.Vec Spectrum.Model.Levinson Spectrum.Model.LinPred Spectrum.Model.LoopIRTie Spectrum.Model.LoopIRWrap
+               Spectrum.Proofs.LoopIRPoly2.
+Lemma prog_%(nm)s_is_ref : prog_%(nm)s = prog_%(nm)s_ref.
+Proof. reflexivity. Qed.
+(* ANY array (any length, both dtype tags), any efinal, every equality test (it is the model's Eqb instance) *)
+Theorem loopir_%(nm)s_model :
+  forall (F : Type) (OF : Ops F) (L : Laws OF) (feq : F -> F -> bool) (stop : Z -> F -> F -> bool) (t : bool) (a : list F) (ef : F),
+  run feq stop prog_%(nm)s [Some (VArr t a); Some (VF ef)] =
+  match a with
+  | [] => OErr IndexError
+  | a0 :: _ =>
+      if negb (feq a0 1%%F) then OErr AssertionError
+      else match @%(nm)s F OF feq a ef with None => OErr ValueError | Some r => ORet [VArr %(ret)s r] end
+  end.
+Proof. intros. rewrite prog_%(nm)s_is_ref. exact (%(nm)s_ir_run feq stop t a ef). Qed.
+Theorem loopir_%(nm)s_tie :
+  forall (F : Type) (OF : Ops F) (L : Laws OF) (feq : F -> F -> bool), (forall a, feq a a = true) ->
+  forall (t : bool) (a : list F) (ef : F), tie_%(nm)s feq prog_%(nm)s t a ef = true.
+Proof. intros. rewrite prog_%(nm)s_is_ref. apply %(nm)s_ir_tie; assumption. Qed.
+Print Assumptions loopir_%(nm)s_model.
+Print Assumptions loopir_%(nm)s_tie.
+""" % dict(nm=nm, ret=ret)
+
+
+for _nm, _ret in (('poly2ac', 'false'), ('poly2rc', 't')):
+    THEOREMS[_nm] = dict(proof=POLY2_PROOF, theorems=['loopir_%s_model' % _nm, 'loopir_%s_tie' % _nm], block=poly2_block(_nm, _ret))
+
+RC2AC_THEOREMS = ['loopir_rc2ac_model', 'loopir_rc2ac_tie']
+RC2AC_BLOCK = """
+(* The program of rc2ac regenerated on this run - rc2poly (with levup) and rlevinson (with levdown) embedded - is, term for term, the one Proofs/LoopIRPoly2.v is about. *)
+Require Import Spectrum.Theory.Ops Spectrum.Theory.Vec Spectrum.Model.Levinson Spectrum.Model.LinPred Spectrum.Model.LoopIRTie Spectrum.Model.LoopIRWrap
+               Spectrum.Proofs.LoopIRPoly2.
+Lemma prog_rc2ac_is_ref : prog_rc2ac = prog_rc2ac_ref.
+Proof. reflexivity. Qed.
+(* ANY reflection coefficients (any dtype tag, the empty sequence included), any R0, every equality test with 1 == 1 *)
+Theorem loopir_rc2ac_model :
+  forall (F : Type) (OF : Ops F) (L : Laws OF) (feq : F -> F -> bool) (stop : Z -> F -> F -> bool), feq 1%F 1%F = true ->
+  forall (tk : bool) (k : list F) (r0 : F),
+  run feq stop prog_rc2ac [Some (VArr tk k); Some (VF r0)] =
+  match @rc2ac F OF feq k r0 with
+  | Some R => ORet [VArr false R]
+  | None => match k with [] => OErr IndexError | _ => OErr ValueError end
+  end.
+Proof. intros. rewrite prog_rc2ac_is_ref. apply (rc2ac_ir_run feq stop); assumption. Qed.
+Theorem loopir_rc2ac_tie :
+  forall (F : Type) (OF : Ops F) (L : Laws OF) (feq : F -> F -> bool), (forall a, feq a a = true) ->
+  forall (tk : bool) (k : list F) (r0 : F), tie_rc2ac feq prog_rc2ac tk k r0 = true.
+Proof. intros. rewrite prog_rc2ac_is_ref. apply rc2ac_ir_tie; assumption. Qed.
+Print Assumptions loopir_rc2ac_model.
+Print Assumptions loopir_rc2ac_tie.
+"""
+THEOREMS['rc2ac'] = dict(proof=POLY2_PROOF, theorems=RC2AC_THEOREMS, block=RC2AC_BLOCK)
+
+
 def reference_text_in(proof, name):
     """the program text of <name> that <proof> was proved about (between its BEGIN/END GENERATED <name> markers)"""
     t = open(os.path.join(vlib.COQ, proof)).read()
